@@ -489,7 +489,14 @@ def run(c):
         idq = lst(ik.get('deq'))
         ok = (ext == lst(mk.get('order')) and idq[:len(md)] == md and all(x == '_' for x in idq[len(md):])
               and ik.get('stuck') == '0' and ik.get('done') == '1')
-        if not ok:
+        if not ok and ik.get('rest', '-') != '-' and mk.get('left', '-') == '-':
+            # the scheduled dequeues ran after the enqueues had completed and still left an event in the queue:
+            # a polling consumer does not get an event that was handed in (the linearisation says it must)
+            findings.append(('event-left-unprocessed', {'kind': 'oracle', 'oracle': 'Fifo.frun (linearisation of the forced schedule)', 'cmd': slines[j],
+                                                        'observed': so[:2000], 'model': ' '.join('%s=%s' % kv_ for kv_ in mk.items())[:2000],
+                                                        'expected': 'every dequeue scheduled after a completed enqueue returns the oldest queued event; none is left behind',
+                                                        'replay_cmd': replay_cmd(slines[j])}))
+        elif not ok:
             mismatches.append({'kind': 'correspondence', 'what': 'forced schedule: Fifo.frun vs BasicEventQueue under vd_sched',
                                'cmd': slines[j], 'observed': so[:2000], 'model': ' '.join('%s=%s' % kv_ for kv_ in mk.items())[:2000],
                                'replay_cmd': replay_cmd(slines[j])})
